@@ -37,7 +37,7 @@ def run(tier, replay=None):
     env = common.san_env(dict(VERIF_TMP=d))
     out = subprocess.check_output([exe, 'c10count', str(common.seed()), '0', '0', lst, '1'], env=env, timeout=600).split()
     space, targeted = int(out[1]), int(out[2])
-    target = 300000 if tier == 'quick' else space
+    target = 200000 if tier == 'quick' else space
     stride = max(1, (space - targeted) // target)
     ncases = int(subprocess.check_output([exe, 'c10count', str(common.seed()), '0', '0', lst, str(stride)], env=env, timeout=600).split()[0])
     sh = common.Sharded(exe, lambda a, b: ['c10', common.seed(), a, b, lst, stride], ncases, env=env, tag='c10', timeout=1500,
